@@ -178,6 +178,44 @@ class World:
             break
         return out
 
+    # ---- migrate apply killed between two statements (tx-mode none) ----
+    def crash_target(self):
+        """(version, start, j_max) of the file a plain linear apply would run first, if a kill after j of
+        its remaining statements (1 <= j <= j_max, not its last one) leaves a well-defined partial state."""
+        res = pending(self.file_list(), self.rev_list(), "linear", None, True, False)
+        if res["kind"] != "ok" or res["ooo"]:
+            return None
+        v = res["pending"][0]
+        f = self.files[v]
+        prev = self.revs.get(v)
+        start = prev["applied"] if prev else 0
+        ok = 0
+        for s in f["stmts"][start:]:
+            if not s["ok"]:
+                break
+            ok += 1
+        jmax = min(ok, len(f["stmts"]) - start - 1)
+        if jmax < 1:
+            return None
+        return v, start, jmax
+
+    def crash(self, j):
+        """`migrate apply --tx-mode none --allow-dirty` killed right after the revision write that follows
+        the j-th statement of the first pending file: j statements are executed and recorded, no error text."""
+        v, start, _ = self.crash_target()
+        f = self.files[v]
+        prev = self.revs.get(v)
+        typ = prev["type"] if prev else T_EXECUTE
+        done = []
+        for s in f["stmts"][start:start + j]:
+            if s["tag"] is None:
+                self.j_exists = True
+            else:
+                done.append(s["tag"])
+        self.journal += done
+        self.revs[v] = {"type": typ, "applied": start + j, "total": len(f["stmts"]), "err": False, "rp": False}
+        return v, done
+
     # ---- migrate set ----
     def set_check(self, v, observed):
         """`migrate set v`: documented effect as a relation between the table before (self.revs) and the
@@ -277,12 +315,13 @@ def gen_op(rnd, w):
     failing = [v for v in sorted(w.files) if any(not s["ok"] for s in w.files[v]["stmts"])]
     with_rev = [v for v in sorted(w.files) if v in w.revs]
     res = pending(w.file_list(), w.rev_list(), "linear", None, True, False)
-    weights = [("apply", 36), ("add_top", 14), ("add_ooo", 12 if w.revs else 5), ("add_fail", 7 if not failing else 2), ("add_ck", 5),
+    ct = w.crash_target()
+    weights = [("crash", 7 if ct else 0), ("apply", 36), ("add_top", 14), ("add_ooo", 12 if w.revs else 5), ("add_fail", 7 if not failing else 2), ("add_ck", 5),
                ("fix", 14 if failing else 0), ("set", 8 if w.files else 0), ("delete", 6 if with_rev else 0)]
     if res["kind"] == "nopending" and not failing:
-        weights[0] = ("apply", 12)
+        weights[1] = ("apply", 12)
     if res["ooo"]:  # out-of-order files are waiting: exercise the three execution orders
-        weights[0] = ("apply", 60)
+        weights[1] = ("apply", 60)
     tot = sum(x for _, x in weights)
     r = rnd.uniform(0, tot)
     kind = weights[-1][0]
@@ -291,6 +330,8 @@ def gen_op(rnd, w):
             kind = k
             break
         r -= x
+    if kind == "crash":
+        return {"op": "crash", "j": rnd.randint(1, ct[2])}
     if kind in ("add_top", "add_fail", "add_ck"):
         ver = next_top(w, rnd)
         ins = rnd.randint(1, 3)
